@@ -98,6 +98,28 @@ int main(int argc, char** argv) {
       else if (m == "ne") { r = (*o != *p); er = (t != po); } }
     delete p;
   }
+  else if (m == "it_step" || m == "rit_step") {
+    size_t op = Z("op"), val = Z("val"), n = old.size(); const size_t E = (size_t)-1; size_t got, want;
+    if (!(idx == E || idx < n) || op > 5) { printf("NOT-REPRODUCED: iterator precondition violated by the inputs\n"); return 0; }
+    if (m == "it_step") { FS::iterator it = (idx == E) ? o->end() : FS::iterator(o, idx);
+      switch (op) { case 0: ++it; break; case 1: it++; break; case 2: --it; break; case 3: it--; break; case 4: it += val; break; default: it -= val; }
+      got = it.mIndex; std::string t = old; std::string::iterator si = (idx == E) ? t.end() : t.begin() + idx; long d = (op <= 1) ? 1 : (op <= 3) ? -1 : (op == 4) ? (long)val : -(long)val;
+      long pos = (si - t.begin()) + d; if (pos < 0 || pos > (long)n) { printf("NOT-REPRODUCED: step leaves [begin, end] (undefined for std::string too)\n"); return 0; } want = (pos == (long)n) ? E : (size_t)pos; }
+    else { FS::reverse_iterator it = (idx == E) ? o->rend() : FS::reverse_iterator(o, idx);
+      switch (op) { case 0: ++it; break; case 1: it++; break; case 2: --it; break; case 3: it--; break; case 4: it += val; break; default: it -= val; }
+      got = it.mIndex; long rp = (idx == E) ? (long)n : (long)(n - 1 - idx); long d = (op <= 1) ? 1 : (op <= 3) ? -1 : (op == 4) ? (long)val : -(long)val; long pos = rp + d;
+      if (pos < 0 || pos > (long)n) { printf("NOT-REPRODUCED: step leaves [rbegin, rend] (undefined for std::string too)\n"); return 0; } want = (pos == (long)n) ? E : (size_t)(n - 1 - pos); }
+    if (got != E && got >= n) { printf("REPRODUCED: iterator index %zu is neither end nor a valid position (length %zu)\n", got, n); return 1; }
+    if (content && got != want) { printf("REPRODUCED: %s op %zu from index %zd gives index %zd, std::string iterator gives %zd\n", m.c_str(), op, (ssize_t)idx, (ssize_t)got, (ssize_t)want); return 1; } }
+  else if (m == "it_deref" || m == "rit_deref") { if (idx < old.size()) { char c = (m == "it_deref") ? *FS::iterator(o, idx) : *FS::reverse_iterator(o, idx); if (c != old[idx]) return bad("iterator dereference", std::string(1, old[idx]), std::string(1, c)); } }
+  else if (m.rfind("iter_", 0) == 0) { std::string got; bool rev = m.find("rev") != std::string::npos; const FS* co = o;
+    if (m == "iter_fwd") for (auto it = o->begin(); it != o->end() && got.size() <= CV_L; ++it) got += *it;
+    else if (m == "iter_cfwd") for (auto it = o->cbegin(); it != o->cend() && got.size() <= CV_L; ++it) got += *it;
+    else if (m == "iter_constfwd") for (auto it = co->begin(); it != co->end() && got.size() <= CV_L; ++it) got += *it;
+    else if (m == "iter_rev") for (auto it = o->rbegin(); it != o->rend() && got.size() <= CV_L; ++it) got += *it;
+    else if (m == "iter_crev") for (auto it = o->crbegin(); it != o->crend() && got.size() <= CV_L; ++it) got += *it;
+    else for (auto it = co->rbegin(); it != co->rend() && got.size() <= CV_L; ++it) got += *it;
+    std::string e = rev ? std::string(old.rbegin(), old.rend()) : old; if (got != e) return bad(m.c_str(), e, got); }
   else if (m == "copy") { char* d = (char*)malloc(count ? count : 1); memset(d, 0x55, count ? count : 1); r = o->copy(d, count, pos); have_r = true; if (content) { std::string t = old; er = t.copy(d, count, pos); } free(d); }
   else if (m == "substr") { std::string g = o->substr(pos, count); if (content) { std::string e = old.substr(pos, count); if (g != e) return bad("substr", e, g); } }
   else { printf("NOT-REPRODUCED: no replay for method %s\n", m.c_str()); return 0; }
